@@ -126,7 +126,7 @@ pub fn c04() -> Check {
     Check::new(
         "C04",
         "exploration",
-        "accept half: C01 histories (manifest rollover ratios 1, 2, 8 so fragments appear; more verifier passes) and after every operation an independent re-implementation parses every manifest fragment and checks: each transaction has input == previous output and input == output + discard, discard == sum(removed) - sum(added), each fragment starts with the roll-up of its predecessor, the final output equals the sum of the listed digests, and each listed sst's file name, stored setsum and setsum recomputed from a full walk agree; every verifier pass must return Ok or back off. reject half: on a finished store (no verifier pass during the history, so every fragment is still there) one hex digit of one recorded digest (an added or removed sst, or the I / O / D field of a transaction other than a fragment's leading roll-up) is changed and the line's CRC fixed up; ManifestVerifier::verify of that fragment must fail, and when the fragment is one the offline verifier processes, LsmVerifier::verify on a copy of the directory must fail too (both must accept the untampered history first). Non-trivial: >= 1 merge, >= 1 GC with non-zero discard, >= 1 rolled fragment; distinct by structural hash.",
+        "accept half: C01 histories (manifest rollover ratios 1, 2, 8 so fragments appear; more verifier passes) and after every operation an independent re-implementation parses every manifest fragment and checks: each transaction has input == previous output and input == output + discard, discard == sum(removed) - sum(added), each fragment starts with the roll-up of its predecessor, the final output equals the sum of the listed digests, and each listed sst's file name, stored setsum and setsum recomputed from a full walk agree; every verifier pass must return Ok or back off. reject half: on a finished store (no verifier pass during the history, so every fragment is still there) one hex digit of one recorded digest (an added or removed sst, or the I / O / D field of a transaction other than a fragment's leading roll-up) is changed and the line's CRC fixed up; ManifestVerifier::verify of that fragment must fail, and when the fragment is one the offline verifier processes, LsmVerifier::verify on a copy of the directory must fail too (both must accept the untampered history first). Content level (part tamper-gc-output): one entry the policy requires to retain is removed from one output of one GC transaction, the file is rebuilt under its new setsum and the whole later manifest history is re-balanced (discard grows, outputs and later inputs shift, later mentions renamed, the shift ends where the file is removed again) so that every balance equation still holds; the offline verifier's replay of the garbage collection must report the loss. Non-trivial: >= 1 merge, >= 1 GC with non-zero discard, >= 1 rolled fragment; distinct by structural hash.",
     )
     .assume("raw byte damage (CRC failures) belongs to C09; tampers here are the self-consistent output of a hypothetical buggy compaction")
     .assume("as C01: single-threaded step driving, R-D / R-R exclusions")
@@ -141,6 +141,7 @@ pub fn c04() -> Check {
         nontrivial: |s| s.merges >= 1 && s.gcs >= 1 && s.rolled_fragments >= 1,
     })
     .pbt(crate::tamper::TamperDigits)
+    .pbt(crate::tamper::TamperGcOutput)
 }
 
 pub fn c08() -> Check {
